@@ -29,7 +29,7 @@ EXPLANATION = ('C12: a base file with two watchers and K<=3 edits from {add watc
                'env variable, change graceful_timeout, revert the previous edit, no edit}, each followed by reloadconfig (waiting). ')
 
 EDITS = ('none', 'add_c', 'rm_b', 'np_up', 'np_down', 'cmd', 'env', 'opt', 'revert', 'rm_c', 'np_b_up', 'cmd_b', 'cmd_both',
-         'rm_a_and_b', 'add_c_d')
+         'rm_a_and_b', 'add_c_d', 'np_a_cmd_b', 'np_b_cmd_a')
 
 
 def render(model):
@@ -85,6 +85,12 @@ def apply_edit(model, e, history):
     elif e == 'add_c_d':
         m['c'] = {'cmd': 'progc', 'numprocesses': 1, 'graceful_timeout': '0.2'}
         m['d'] = {'cmd': 'progd', 'numprocesses': 1, 'graceful_timeout': '0.2'}
+    elif e in ('np_a_cmd_b', 'np_b_cmd_a'):
+        x, y = ('a', 'b') if e == 'np_a_cmd_b' else ('b', 'a')
+        if x in m:
+            m[x]['numprocesses'] += 1
+        if y in m:
+            m[y]['cmd'] = m[y]['cmd'] + 'y' if not m[y]['cmd'].endswith('y') else m[y]['cmd'][:-1]
     elif e == 'env' and 'a' in m:
         env = dict(m['a'].get('env') or {})
         env['MODE'] = 'x' if env.get('MODE') != 'x' else 'y'
